@@ -350,10 +350,15 @@ Definition coded_calls : calls :=
    is _configure_weights called for single-readout / time-domain targets, and to which shape is a
    scalar weight expanded in ModelFittingDataTree.fitness *)
 Inductive wshape := ShTarget | ShDetector.    (* target_data.shape / (geometry.row, geometry.col) *)
-Record wconf := { wc_single : bool; wc_multi : bool; wc_shape : wshape }.
-Definition coded_wconf : wconf := {| wc_single := true; wc_multi := true; wc_shape := ShTarget |}.
-(* the tree before the repairs: weights dropped for time-domain targets, detector-shaped scalar weights *)
-Definition legacy_wconf : wconf := {| wc_single := true; wc_multi := false; wc_shape := ShDetector |}.
+(* wc_time_key: the target data and the weights read from file are restricted with the time component
+   of a 3-D target range under THEIR dimension name 'readout_time' (otherwise isel raises) *)
+Record wconf := { wc_single : bool; wc_multi : bool; wc_shape : wshape; wc_time_key : bool }.
+Definition coded_wconf : wconf :=
+  {| wc_single := true; wc_multi := true; wc_shape := ShTarget; wc_time_key := true |}.
+(* the tree before the repairs: weights dropped for time-domain targets, detector-shaped scalar
+   weights, 3-D target ranges unusable *)
+Definition legacy_wconf : wconf :=
+  {| wc_single := true; wc_multi := false; wc_shape := ShDetector; wc_time_key := false |}.
 
 (* ---- the problem object *)
 Inductive wspec := WNone | WScalar (ws : list Q) | WFile (fs : list frame3).
@@ -372,13 +377,17 @@ Record fconf := {
 Definition ones (n : nat) : frame := repeat (Some 1) n.
 
 (* weights of pair k as the code builds them (w = what _configure_weights kept) *)
+Definition out_slices (o : fitrange) : sl * sl * sl :=
+  match o with FR3 t r c => (t, r, c) | FR2 r c => ((None, None), r, c) end.
+
 Definition weight_coded (c : fconf) (w : wspec) (k : nat) (n : nat) (trng : fitrange) : option frame :=
+  let '(tm, tr, tc) := out_slices trng in
   match w with
   | WNone => Some (ones n)
   | WScalar ws => match nth_error ws k with Some q => Some (repeat (Some q) n) | None => None end
-  | WFile fs => match nth_error fs k, trng with
-                | Some f, FR2 r cc => Some (flat3 (map (slice2 r cc) f))
-                | _, _ => None
+  | WFile fs => match nth_error fs k with
+                | Some f => Some (flat3 (slice3 tm tr tc f))      (* weights.isel(target range) *)
+                | None => None
                 end
   end.
 
@@ -386,9 +395,6 @@ Definition tshape (c : fconf) : list nat := shape3 (hd [] (fc_tgts c)).
 
 Inductive fobs := OCtor | ORaise | OInf | OVal (q : Q) | OUndef.
 (* OCtor: the constructor raised; ORaise: fitness raised; OUndef: outside the model (shapes differ) *)
-
-Definition out_slices (o : fitrange) : sl * sl * sl :=
-  match o with FR3 t r c => (t, r, c) | FR2 r c => ((None, None), r, c) end.
 
 Definition term_coded (c : fconf) (w : wspec) (k : nat) (sim tgt : frame3) : fres :=
   let '(ot, orow, ocol) := out_slices (fc_orng c) in
@@ -437,30 +443,31 @@ Definition weights_kept (wc : wconf) (c : fconf) : wspec :=
   if (if fc_multi c then wc_multi wc else wc_single wc) then fc_w c else WNone.
 
 Definition model_fit (ck : checker) (cl : calls) (wc : wconf) (c : fconf) (sims : list frame3) : fobs :=
-  match fc_trng c with
-  | FR3 _ _ _ => OCtor          (* readout_times=None -> ValueError, or isel(time=...) on dims (processor, readout_time, y, x) *)
-  | FR2 tr tc =>
-      match (if fc_bypass c then Accept else ctor_check ck cl c sims) with
-      | Accept =>
-          let w := weights_kept wc c in
-          let tg := map (fun f => map (slice2 tr tc) f) (fc_tgts c) in
-          let '(ot, orow, ocol) := out_slices (fc_orng c) in
-          let shapes_agree :=
-            forallb (fun st => let '(s, t) := st in
-                     shape_eqb (shape3 (slice3 ot orow ocol s)) (shape3 t))
-                    (combine sims tg) in
-          let chi_scalar_sub :=
-            (* a detector-shaped scalar weight cannot divide a smaller region (numpy broadcasting error) *)
-            match wc_shape wc, fc_ff c, w with
-            | ShDetector, FChi _, WScalar _ => negb ((nth_shape (shape3 (hd [] tg)) 1 =? fc_drows c)%Z
-                                                     && (nth_shape (shape3 (hd [] tg)) 2 =? fc_dcols c)%Z)
-            | _, _, _ => false
-            end in
-          if negb shapes_agree || chi_scalar_sub then OUndef
-          else fobs_of (fitness_loop (term_coded c w) sims tg)
-      | _ => OCtor
-      end
-  end.
+  (* a 3-D target range: readout_times=None -> ValueError for single-readout targets; without the
+     'readout_time' key isel(time=...) raises on dims (processor, readout_time, y, x) *)
+  if is3d (fc_trng c) && negb (wc_time_key wc && fc_multi c) then OCtor
+  else
+    let '(tm, tr, tc) := out_slices (fc_trng c) in
+    match (if fc_bypass c then Accept else ctor_check ck cl c sims) with
+    | Accept =>
+        let w := weights_kept wc c in
+        let tg := map (slice3 tm tr tc) (fc_tgts c) in            (* targets.isel(target range) *)
+        let '(ot, orow, ocol) := out_slices (fc_orng c) in
+        let shapes_agree :=
+          forallb (fun st => let '(s, t) := st in
+                   shape_eqb (shape3 (slice3 ot orow ocol s)) (shape3 t))
+                  (combine sims tg) in
+        let chi_scalar_sub :=
+          (* a detector-shaped scalar weight cannot divide a smaller region (numpy broadcasting error) *)
+          match wc_shape wc, fc_ff c, w with
+          | ShDetector, FChi _, WScalar _ => negb ((nth_shape (shape3 (hd [] tg)) 1 =? fc_drows c)%Z
+                                                   && (nth_shape (shape3 (hd [] tg)) 2 =? fc_dcols c)%Z)
+          | _, _, _ => false
+          end in
+        if negb shapes_agree || chi_scalar_sub then OUndef
+        else fobs_of (fitness_loop (term_coded c w) sims tg)
+    | _ => OCtor
+    end.
 
 (* ---- the declared figure of merit (the specification): all targets, declared pairing, declared
    ranges on both sides, declared weights in every term, single- and multi-readout alike.
